@@ -2,7 +2,7 @@
 """Generates src/gen.rs (the corpus of decorated functions) and subjects.json (the intended
 configuration of each subject, used as the oracle of C19 and to pick subjects for the
 wrapper-level VCs).  Deterministic; the two outputs are committed."""
-import json, os, sys
+import json, os, sys, re
 
 POL = ['fifo', 'lru', 'lfu', 'arc', 'random', 'tlru']
 S = []          # subject records
@@ -205,6 +205,10 @@ def main():
         'f64f64': (('a', 'f64'), ('b', 'f64')), 'pt': (('p', 'Pt'), ('b', 'u32')), 'one_str': (('a', 'String'),), 'one_u32': (('a', 'u32'),),
         'slice': (('a', "&'static [u32]"), ('b', 'u32')),
         'u32x5': (('a', 'u32'), ('b', 'u32'), ('c', 'u32'), ('d', 'u32'), ('e', 'u32')),
+        'tup1': (('a', '(u32,)'), ('b', 'u32')), 'tup3': (('a', '(u32, u32, u32)'),), 'tup4': (('a', '(i32, i32, i32, i32)'), ('b', 'u32')),
+        'tup5': (('a', '(u32, u32, u32, u32, u32)'),), 'tup5b': (('a', 'u32'), ('t', '(u32, u32, u32, u32, u32)')),
+        # destructured parameters: the pattern is what the macro sees
+        'pat2': (('(a, b)', '(u64, u64)'), ('c', 'u64')), 'pat3': (('x', 'u32'), ('(a, b, c)', '(u32, u32, u32)')),
     }
     for k, a in shapes.items():
         add(f'gk_{k}', 'G', args=a, group='key')
@@ -307,6 +311,11 @@ def main():
         if t == 'String': return f'dec(&a[{i}])?'
         if t == '&str': return f'&*Box::leak(dec(&a[{i}])?.into_boxed_str())'
         if t == 'char': return f'dec(&a[{i}])?.chars().next()?'
+        mt = re.match(r'^\(((?:u8|u16|u32|u64|usize|i8|i16|i32|i64|isize)), *((?:\1(?:, *)?)*)\)$', t)
+        if mt:
+            n_ = t.count(',') + (0 if t.rstrip(')').rstrip().endswith(',') else 1)
+            comps = ', '.join(f'p[{j}]' for j in range(n_)) + (',' if n_ == 1 else '')
+            return f'{{ let p: Vec<{mt.group(1)}> = a[{i}].strip_prefix("t:")?.split(\',\').map(|x| x.parse::<{mt.group(1)}>().ok()).collect::<Option<Vec<_>>>()?; if p.len() != {n_} {{ return None; }} ({comps}) }}'
         return None
     ksyn = []; kasy = []
     for r in S:
